@@ -456,6 +456,9 @@ func (r *Runner) c09decCheck(op *OpSpec, st *Step, sd *model.StructDef, m *messa
 		if res.Cls == "panic" {
 			return // a crash is C05's business
 		}
+		if m.w.Depth() > 40 {
+			return // nested beyond what the decoder must accept: it may refuse the message for its depth first
+		}
 		if !isReq {
 			r.violation("C09", "C09/missing-required-wrong-error", fmt.Sprintf("DecodeObject(%s) lacking required %v failed with %q, not an invalid-data protocol error naming the field", op.Type, m.missing, res.Err), st)
 			return
@@ -533,10 +536,12 @@ func (r *Runner) execWrap(op *OpSpec, st *Step) *Rec {
 		if err == nil {
 			r.violation("C09", "C09/missing-required-accepted", fmt.Sprintf("DecodeObject(%s) accepted a message lacking required %v at its %d-th repetition after one complete message: %s", op.Type, missing, i+1, bad.String()), st)
 			res.Cls = "ok"
+			res.D = "wrap: accepted at repetition " + strconv.Itoa(i+1) // (for the baseline comparison of C07)
 			return res
 		}
 	}
 	res.Cls = "err"
+	res.D = "wrap: every repetition refused"
 	return res
 }
 
